@@ -356,6 +356,39 @@ class Trial:
         self.view = probe
         return self.dump(probe)
 
+    def check_twin(self, op, argv, twin_ex, post, started_hot):
+        """Verdicts that concern the fault-free run alone."""
+        t_out = twin_ex.outcome
+        index = len(self.ops) - 1
+        if post.integrity != "ok" or post.error:
+            raise Violation("I1-integrity-after-fault-free-command", {
+                "op": op, "op_index": index, "started_on_hot_journal": bool(started_hot),
+                "twin": t_out.as_dict(), "integrity": post.integrity[:300], "error": post.error})
+        if started_hot:
+            self.check_restart_equivalence(op, argv, post)
+        step = step_of(op)
+        if step is not None and t_out.ok:
+            self._check_marker(step, argv, self.twin, {"op": op, "op_index": index, "twin": t_out.as_dict()}, "twin")
+
+    def check_restart_equivalence(self, op, argv, post):
+        """R1: a command that starts on the files a kill left behind must see the
+        state SQLite's own recovery yields.  `probe.sqlite` is that state (a byte
+        copy already recovered through a plain connection by observe()); the
+        same command is run on it fault-free and must end where the twin --
+        which started on the unrecovered files -- ended."""
+        probe = os.path.join(self.dir, "probe.sqlite")
+        ref = os.path.join(self.dir, "restartref.sqlite")
+        if not os.path.exists(probe):
+            return
+        _copy_with_sidecars(probe, ref)
+        execute(ref, argv, self.knobs, None, self.dir)
+        ref_post = self.dump(ref)
+        self.stats["R1_restart_equivalence_checked"] += 1
+        if ref_post != post:
+            raise Violation("R1-command-after-kill-does-not-see-the-recovered-state", {
+                "op": op, "op_index": len(self.ops) - 1, "differs": post.diff(ref_post)[:8],
+                "integrity": post.integrity[:200]})
+
     def state_key(self):
         return "".join("1" if s in self.acked else "0" for s in CANON_ORDER)
 
@@ -461,10 +494,16 @@ class Trial:
         pre = self.current
         jpath = self.db + "-journal"
         started_hot = os.path.exists(jpath) and os.path.getsize(jpath) > 512 and getattr(self, "deferred", False)
+        # the op is on record before anything can be reported about it (twin-stage verdicts included)
+        rec = {"op": op, "argv": argv, "fault": None}
+        self.ops.append(rec)
+        if expect is not None:
+            rec["retry_of_previous"] = True
         if twin is None:
             twin_ex, post = self.run_twin(argv)
+            self.check_twin(op, argv, twin_ex, post, started_hot)
         else:
-            twin_ex, post = twin      # sweeps: same pre-state files, same op => same twin
+            twin_ex, post = twin      # sweeps: same pre-state files, same op => same twin (already checked)
         t_out = twin_ex.outcome
         self.last_twin_failed = not t_out.ok
         if fault == "draw":
@@ -485,16 +524,14 @@ class Trial:
         self.deferred = defer
         after = self.observe(defer)
         self.current = after
-        self.ops.append({"op": op, "argv": argv, "fault": fault})
+        rec["fault"] = fault
         if defer:
-            self.ops[-1]["defer_recovery"] = True
+            rec["defer_recovery"] = True
             self.stats["probe_recovery_left_to_next_command"] += 1
         if started_hot:
             self.stats["probe_op_started_on_hot_journal"] += 1
             if ex.fired or ex.killed:
                 self.stats["probe_fault_in_op_that_recovers_hot_journal"] += 1
-        if expect is not None:
-            self.ops[-1]["retry_of_previous"] = True
         self.stats["ops"] += 1
         s_out = ex.outcome
         where = "pre" if after == pre else ("post" if after == post else "THIRD")
@@ -542,8 +579,6 @@ class Trial:
                 completed = True
             elif after == post and post != pre:
                 completed = True        # killed or failed after the commit point
-            if t_out.ok:
-                self._check_marker(step, argv, self.twin, detail, "twin")
             if completed:
                 self._check_marker(step, argv, self.view, detail, "subject")
                 self.acked[step] = argv
@@ -855,6 +890,13 @@ def sweep(seed, directory, step, prefix_steps, spec=None, knobs=None, layers=("A
     pre_acked = dict(trial.acked)
     pre_ack_count = collections.Counter(trial.ack_count)
     twin_ex, post = trial.run_twin(argv)
+    trial.ops.append({"op": step, "argv": argv, "fault": None})
+    try:
+        trial.check_twin(step, argv, twin_ex, post, bool(hot and trial.deferred))
+    except Violation as v:
+        violations.append((v, trial.replay_record(v)))
+        return trial.stats + stats, trial.distinct, violations, None
+    trial.ops.pop()
     plans = []
     if "A" in layers:
         for k in range(twin_ex.calls):
